@@ -237,7 +237,7 @@ def check(ctx):
             ctx.call_method(I, st, o, "_computes_localized_bandwidth", Gd, gw, md)
             site = ctx.site(P.method(cls, "_computes_localized_bandwidth"))
             tune_want = T("sum", T("pow", cellv.term, T("const", Fraction(2)))) if cell_on else T("trace", T("COV", Gd.term, gw.term, cellv.term))
-            s_init = T("smul", tune_want, T("pow", fs.term, T("const", Fraction(2)))) if mode == "fspread" else tune_want
+            s_init = T("smul", tune_want, T("smul", T("pow", fs.term, T("const", Fraction(2))), T("const", Fraction(1)))) if mode == "fspread" else tune_want  # (a product of two scalars)
             pops = got.get("pop", [])
             ok = bool(pops) and all(len(a_) == 5 for a_ in pops)
             if ctx.ob("NF-LOCAL", f"main loop measures the local population of every grid point [{cfg}]", ok, f"{len(pops)} calls", site, cfg):
